@@ -253,6 +253,10 @@ pub fn run_c20(_p: &str, tier: Tier, run_seed: u64, _ov: &Value) -> RunOut {
     // table: with dictionary-eligible strings (few or > 4096 distinct) or without
     let rows = 40 + rng.usize(if tier == Tier::Thorough { 9000 } else { 1500 });
     let string_kind = rng.below(3);
+    // one table in sixteen has a row group larger than the sidecar writer's 64k slicing unit
+    // (and not a multiple of it), which only a big single row group exercises
+    let big = rng.fork(0xb16).chance(1, 16);
+    let rows = if big { 65_536 + 1 + rng.fork(0xb17).usize(40_000) } else { rows };
     let t = Table {
         name: "t".into(),
         cols: vec![
@@ -267,7 +271,7 @@ pub fn run_c20(_p: &str, tier: Tier, run_seed: u64, _ov: &Value) -> RunOut {
         ],
         rows,
     };
-    let n_rg_target = 1 + rng.usize(6);
+    let n_rg_target = if big { 1 } else { 1 + rng.usize(6) };
     let lay = ParquetLayout { file_cuts: vec![], row_group_rows: (rows / n_rg_target).max(1), dictionary: string_kind != 1 || rng.coin(), stats: 2, stem: "t".into(), same_name_dirs: false, empty_row_groups: vec![] };
     datagen::write_parquet_file(&t, 0, rows, &path, &lay).unwrap();
     let rg_rows: Vec<i64> = crate::cluster::splits::footer_truth(&path).1.iter().map(|x| x.0).collect();
